@@ -459,4 +459,71 @@ example : (⟨1000, 10, [0, 0, 1, 2, 1, 2, 1, 2, 0, 0, 0, 1, 2]⟩ : Wave).kymoT
     (by decide)).1
   rw [kymo_ts_placement _ 3 _ h]; decide
 
+/-! ## Reducing a channel over the ranges reproduces the image (C01 + C02 + C03) -/
+
+/-- **Summing the photon stream over the reported line ranges gives the image's column totals.**
+    `sumOver` is `Slice.downsampled_over(ranges, reduce=np.sum)` with the C01 slicing model;
+    `pixelSums`/`lineTotals` are the C02 image (one pixel per boundary code, zero padding, totals per
+    line).  Hypotheses: the wave is regular (`m ≥ 1` complete pixels of `k` used samples, then fewer
+    than `k` used samples), no discarded sample lies inside a line (dead time only between lines),
+    `1 ≤ δ ≤ dt`.  Counts in discarded samples — lead-in, dead time, after the last pixel — are
+    arbitrary. -/
+theorem sum_over_ranges_eq_image (w : Wave) (data : List Int) (hlen : data.length = w.iw.length)
+    (hdt : 0 < w.dt) (hs : 0 ≤ w.start) (k m r : Nat) (hreg : w.Regular k m r) (P : Nat) (hP : 0 < P)
+    (δ : Int) (h1 : 1 ≤ δ) (h2 : δ ≤ w.dt)
+    (hcont : ∀ l, l < numBlocks m P → ∀ t ∈ w.allTs,
+      w.usedTs.getD (l * P * k) 0 ≤ t →
+      t ≤ w.usedTs.getD (min ((l + 1) * P) m * k - 1) 0 → t ∈ w.usedTs)
+    (rs : List (Int × Int)) (hrs : w.lineRangesExcl P δ = some rs) :
+    sumOver ⟨w.start, w.dt, data⟩ rs = lineTotals P (pixelSums w.iw data 0) := by
+  have hk := hreg.pixelSize
+  have hm := hreg.numPix
+  have hul := hreg.used_length
+  obtain ⟨hk0, hm0, hr, hsub⟩ := hreg
+  rw [sumOver_blocks w data hlen hdt hs k hk P hP δ h1 h2 (by rw [hm]; exact hcont) rs hrs, hm]
+  have hUD : (usedOf w.iw data).length = m * k + r := by
+    rw [usedOf_length _ _ hlen, ← hul]
+    unfold Wave.usedTs Wave.allTs
+    rw [usedOf_length _ _ (times_length _ _ _)]
+  rw [pixelSums_used]
+  have : w.iw.filter (· ≠ 0) = w.subset := rfl
+  rw [this, hsub, pixelSums_regular k hk0 m r _ (by omega), lineTotals_rows _ _ _ _ hP]
+
+/-- Non-vacuity: lead-in 2, two lines of two pixels of two samples, dead time 1, an unfinished third
+    line; counts are non-zero everywhere. -/
+example :
+    let w : Wave := ⟨1000, 10, [0, 0, 1, 2, 1, 2, 0, 1, 2, 1, 2, 0, 1, 2, 1]⟩
+    let data : List Int := [9, 8, 1, 2, 3, 4, 7, 5, 6, 7, 8, 6, 9, 10, 11]
+    w.Regular 2 5 1 ∧ w.lineRangesExcl 2 9 = some [(1020, 1059), (1070, 1109), (1120, 1139)] ∧
+    sumOver ⟨1000, 10, data⟩ [(1020, 1059), (1070, 1109), (1120, 1139)] = [10, 26, 19] ∧
+    lineTotals 2 (pixelSums w.iw data 0) = [10, 26, 19] := by
+  refine ⟨⟨by decide, by decide, by decide, by decide⟩, by decide, by decide, by decide⟩
+
+/-! ## Non-vacuity of the range theorems
+
+One kymograph wave (lead-in 2, lines of 3 pixels of 2 samples, dead time 3, second line unfinished
+after one pixel and one more used sample) with `dt = 10` and `δ = 9 = dt − 1`, and one scan wave of
+two frames of 2×2 one-sample pixels (line dead time 1, frame dead time 2). -/
+
+example :
+    let w : Wave := ⟨1000, 10, [0, 0, 1, 2, 1, 2, 1, 2, 0, 0, 0, 1, 2, 1]⟩
+    w.pixelSize = some 2 ∧
+    w.lineRangesExcl 3 9 = some [(1020, 1079), (1110, 1129)] ∧
+    w.usedTs.filter (fun t => decide (1110 ≤ t) && decide (t < 1129)) = blockSamples w.usedTs 2 3 1 ∧
+    blockSamples w.usedTs 2 3 1 = [1110, 1120] ∧
+    w.allTs.filter (fun t => decide (1020 ≤ t) && decide (t < 1079)) = blockSamples w.usedTs 2 3 0 ∧
+    (∀ t ∈ w.allTs, w.usedTs.getD (0 * 3 * 2) 0 ≤ t →
+      t ≤ w.usedTs.getD (min ((0 + 1) * 3) (w.usedTs.length / 2) * 2 - 1) 0 → t ∈ w.usedTs) ∧
+    w.lineRangesIncl 3 = some (some [(1020, 1110), (1110, 1200)]) := by
+  decide
+
+example :
+    let w : Wave := ⟨1000, 10, [0, 2, 2, 0, 2, 2, 0, 0, 0, 2, 2, 0, 2, 2, 0, 0, 0, 2]⟩
+    w.pixelSize = some 1 ∧
+    w.frameRanges 2 2 false 10 = some (some [(1010, 1060), (1090, 1140), (1170, 1180)]) ∧
+    w.frameRangesPinned 2 2 false 10 = w.frameRanges 2 2 false 10 ∧
+    w.frameRanges 2 2 true 10 = some (some [(1010, 1090), (1090, 1170), (1170, 1250)]) ∧
+    numBlocks (w.usedTs.length / 1) (2 * 2) ≠ 1 := by
+  decide
+
 end Verif.C03
